@@ -582,10 +582,20 @@ func (r *pathRun) assertion(label string, cond value) {
 	for _, x := range excuses {
 		anyExc = c.Or(anyExc, x.t)
 	}
+	nAnyExc := c.Not(anyExc)
+	if r.pos < len(r.prefix) {
+		// still following the prefix: the run that forked this path already
+		// discharged (or reported) this very query under the same path condition
+		if ct.IsFalse() {
+			r.abort("assume-false", "assertion "+label+" failed concretely")
+		}
+		r.assume(ct)
+		return
+	}
 	e.mu.Lock()
 	e.res.Obligations++
 	e.mu.Unlock()
-	res, m := r.check(neg, c.Not(anyExc))
+	res, m := r.check(neg, nAnyExc)
 	switch res {
 	case "unsat":
 		e.mu.Lock()
